@@ -260,6 +260,7 @@ func (x *Exec) hookEvent(st *State, fr *Frame, kind, key string, args []Val, ret
 			continue
 		}
 		env := x.envFor(st, x.topFrame(fr))
+		x.bindActiveLoopVars(env, st, x.topFrame(fr))
 		for i, a := range args {
 			env.vars[fmt.Sprintf("arg%d", i)] = a
 		}
@@ -292,6 +293,7 @@ func (x *Exec) hookAfter(st *State, fr *Frame, kind, key string, args []Val, ret
 			continue
 		}
 		env := x.envFor(st, x.topFrame(fr))
+		x.bindActiveLoopVars(env, st, x.topFrame(fr))
 		for i, a := range args {
 			env.vars[fmt.Sprintf("arg%d", i)] = a
 		}
@@ -950,5 +952,19 @@ func (x *Exec) frameObligations(st *State, fr *Frame, fc *FuncContract, pos toke
 			}
 		}
 		st.oblige("frame", n, goal, pos, "only the declared locations of "+n+" change", propsOr(nil, fc.Props))
+	}
+}
+
+
+// bindActiveLoopVars exposes idx/idxN/visited of the loops that are active at an event (innermost loop = idx).
+func (x *Exec) bindActiveLoopVars(env *Env, st *State, fr *Frame) {
+	var inner *ssa.BasicBlock
+	for h := range fr.active {
+		if inner == nil || len(fr.loops.body[h]) < len(fr.loops.body[inner]) {
+			inner = h
+		}
+	}
+	if inner != nil {
+		x.bindLoopVars(env, st, fr, inner)
 	}
 }
